@@ -102,18 +102,27 @@ func (muxer *Muxer) process(vp, ap Packetizer) {
 			continue
 		}
 
-		frame := f.(*codec.Frame)
+		muxer.packetize(vp, ap, f.(*codec.Frame))
+	}
+}
 
-		switch frame.MediaType {
-		case codec.MediaTypeVideo:
-			if err := vp.Packetize(frame); err != nil {
-				muxer.logger.Errorf("tsmuxer: muxVideoTag error - %s", err.Error())
-			}
-		case codec.MediaTypeAudio:
-			if err := ap.Packetize(frame); err != nil {
-				muxer.logger.Errorf("tsmuxer: muxAudioTag error - %s", err.Error())
-			}
-		default:
+// packetize 处理单个帧；畸形帧引起的 panic 只丢弃该帧，不能终止整个转换协程
+func (muxer *Muxer) packetize(vp, ap Packetizer, frame *codec.Frame) {
+	defer func() {
+		if r := recover(); r != nil {
+			muxer.logger.Errorf("tsmuxer: malformed frame dropped; r = %v", r)
 		}
+	}()
+
+	switch frame.MediaType {
+	case codec.MediaTypeVideo:
+		if err := vp.Packetize(frame); err != nil {
+			muxer.logger.Errorf("tsmuxer: muxVideoTag error - %s", err.Error())
+		}
+	case codec.MediaTypeAudio:
+		if err := ap.Packetize(frame); err != nil {
+			muxer.logger.Errorf("tsmuxer: muxAudioTag error - %s", err.Error())
+		}
+	default:
 	}
 }
